@@ -1,1 +1,45 @@
-From TB Require Import Base.
+(** C17 - the outcome does not depend on how torrents and directories are presented.  Statements only. *)
+From TB Require Import Base Decimal BencodeModel TorrentModel TorrentProofs PathModel FsModel SolverModel FinderModel RunModel
+                       SolverProofs RunProofs FsProofs FaultProofs PreludeProofs TableProofs FinderProofs SearchProofs PresentProofs Generated GeneratedObligations.
+From Coq Require Import Permutation Sorted.
+Local Open Scope N_scope.
+
+(** The list the run works on has strictly increasing info-hashes (no torrent twice), consists of
+    given torrents, and contains every given info-hash ... *)
+Theorem C17_distinct_torrents l :
+  StronglySorted hlt (distinct_torrents l) /\
+  (forall u, In u (distinct_torrents l) -> In u l) /\
+  (forall u, In u l -> exists v, In v (distinct_torrents l) /\ t_info_hash v = t_info_hash u).
+Proof. exact (distinct_spec l). Qed.
+
+(** ... and it is the same list for any two presentations with the same set of torrents: listing a
+    torrent twice or permuting the list changes nothing (info-hash determines the torrent). *)
+Theorem C17_torrent_list_presentation l1 l2 :
+  (forall t u, In t (l1 ++ l2) -> In u (l1 ++ l2) -> t_info_hash t = t_info_hash u -> t = u) ->
+  (forall t, In t l1 <-> In t l2) -> distinct_torrents l1 = distinct_torrents l2.
+Proof. exact (distinct_presentation_invariant l1 l2). Qed.
+
+(** The candidate list does not depend on the hash map's iteration order (nor, therefore, on the
+    order / repetition / nesting of scan directories, which only affect that order and not the
+    set of registered (path, inode) pairs): for every order it represents exactly the registered
+    inodes, with the export file first. *)
+Theorem C17_candidates_order_independent ix e ns p id l :
+  e_pad e = false -> nodes_of ix (e_len e) = Some ns -> In (p, id) ns ->
+  searches_for ix e = Ok (Some l) -> exists p', In p' l /\ In (p', id) ns.
+Proof. exact (searches_complete ix e ns p id l). Qed.
+
+Theorem C17_export_first_for_every_order ix e ns id l :
+  e_pad e = false -> nodes_of ix (e_len e) = Some ns -> NoDup (map fst ns) -> In (e_target e, id) ns ->
+  searches_for ix e = Ok (Some l) -> exists rest, l = e_target e :: rest.
+Proof. exact (export_first ix e ns id l). Qed.
+
+(** More candidates never remove a recovery: the search is exhaustive over whatever rows it is given. *)
+Theorem C17_more_candidates_monotone H hash c pre combo : picks combo c ->
+  beq (H (concat (map snd (pre ++ combo)))) hash = true -> find_combo H hash c pre <> None.
+Proof. exact (find_combo_complete H hash c pre combo). Qed.
+
+Print Assumptions C17_distinct_torrents.
+Print Assumptions C17_torrent_list_presentation.
+Print Assumptions C17_candidates_order_independent.
+Print Assumptions C17_export_first_for_every_order.
+Print Assumptions C17_more_candidates_monotone.
